@@ -51,7 +51,8 @@ CONSTANTS
   SVs,       \* source versions tried
   Sizes,     \* page sizes tried
   Stray,     \* BOOLEAN: also try cursors that do not continue a pass
-  BVals      \* numeric values tried inside batches by Next
+  BVals,     \* cursor values tried inside batches by Next
+  BSVs       \* source versions tried inside batches by Next
 
 VARIABLES
   mem,       \* [Users -> [1..NCh -> row]]
@@ -191,7 +192,7 @@ OpsOn(slots, kinds, T, V, A, S, isCmd) ==
 AllOps(T, V, A, S) ==
   {o \in OpsOn(MemSlots, Kinds, T, V, A, S, FALSE) \cup OpsOn(CmdSlots, Kinds, T, V, A, S, TRUE) : o.k \in Kinds}
 SingleOps == AllOps(Tombs, Vals, Ats, SVs)
-BOps      == AllOps(Tombs, BVals, {1} \cap Ats, BVals \cap SVs)
+BOps      == AllOps(Tombs, BVals, {1} \cap Ats, BSVs)
 Cursors(u) == {ZeroCur} \cup (IF pass[u].on THEN {pass[u].cur} ELSE {})
                 \cup (IF Stray THEN {[c |-> c, at |-> a] : c \in Chans, a \in Ats} ELSE {})
 
@@ -226,12 +227,16 @@ C16_SourceVersionForward ==
   [][\A u \in Users, c \in Chans : Continues(u, c) => mem'[u][c].sv >= mem[u][c].sv]_vars
 
 \* Within one membership incarnation (source version unchanged, or an unfenced row
-\* receiving its first source projection through ensure) the read cursor and the
-\* delete-to boundary never move backwards.
+\* receiving its first source projection through one ensure) the read cursor and the
+\* delete-to boundary never move backwards.  (A batch may carry two projections of
+\* the same row: the first fences it, the second is then a Recreate.)
+NTouch(e, u, c, k) == Cardinality({i \in 1..Len(OpsOf(e)) :
+                                     OpsOf(e)[i].k = k /\ OpsOf(e)[i].u = u /\ OpsOf(e)[i].c = c})
 C16_CursorsForward ==
   [][\A u \in Users, c \in Chans :
        Continues(u, c) /\ (mem'[u][c].sv = mem[u][c].sv
-                           \/ (mem[u][c].sv = 0 /\ ~Touches(ev', u, c, "upsert"))) =>
+                           \/ (mem[u][c].sv = 0 /\ ~Touches(ev', u, c, "upsert")
+                                                /\ NTouch(ev', u, c, "ensure") <= 1)) =>
          /\ mem'[u][c].read >= mem[u][c].read
          /\ mem'[u][c].del >= mem[u][c].del]_vars
 
